@@ -7,6 +7,7 @@ trip for one feature set.
 * `nillable` : nillable element vars (`xsi:nil`), `None` items in nillable lists, nillable classes
 * `tokens`   : token lists (element, attribute and text vars) of `str` / `int` / `bool`
 * `wrapper`  : wrapped list elements
+* `sequence` : `sequence` groups (the rolling interleave of `next_value`)
 
 Core Lean only (the driver evaluates the predicates on exported real universes and instances).
 -/
@@ -20,13 +21,15 @@ structure Feat where
   nillable : Bool := false
   tokens : Bool := false
   wrapper : Bool := false
+  sequence : Bool := false
 deriving DecidableEq, Repr
 
 /-! ### metadata -/
 
 /-- flags every var of the fragments has -/
 def varBase (ft : Feat) (v : XmlVar) : Bool :=
-  v.init && !v.mixed && !v.anyType && !v.isClazzUnion && !v.qname.isEmpty && v.sequence.isNone &&
+  v.init && !v.mixed && !v.anyType && !v.isClazzUnion && !v.qname.isEmpty &&
+  (v.sequence.isNone || ft.sequence) &&
   (!v.nillable || ft.nillable) && (!v.tokens || ft.tokens) && (v.wrapperQName.isNone || ft.wrapper)
 
 /-- the one primitive type of a var -/
@@ -36,7 +39,7 @@ def primTypeOf (v : XmlVar) : Option PT :=
   | _ => none
 
 def attrVarOK (ft : Feat) (m : XmlMeta) (ci : ClassInfo) (v : XmlVar) : Bool :=
-  v.isAttribute && varBase ft v && !v.nillable && v.wrapperQName.isNone &&
+  v.isAttribute && varBase ft v && !v.nillable && v.wrapperQName.isNone && v.sequence.isNone &&
   decide (m.findAttribute v.qname = some v) &&
   decide (v.qname ≠ xsiNil) && decide (v.qname ≠ xsiType) &&
   (match primTypeOf v with
@@ -46,7 +49,7 @@ def attrVarOK (ft : Feat) (m : XmlMeta) (ci : ClassInfo) (v : XmlVar) : Bool :=
   fieldAgrees ci v
 
 def textVarOK (ft : Feat) (ci : ClassInfo) (v : XmlVar) : Bool :=
-  v.isText && varBase ft v && !v.nillable && v.wrapperQName.isNone &&
+  v.isText && varBase ft v && !v.nillable && v.wrapperQName.isNone && v.sequence.isNone &&
   (match primTypeOf v with
    | some t =>
      if v.tokens then !v.listElement && decide (v.default = .listFactory)
@@ -80,6 +83,24 @@ def elemVarOK (ft : Feat) (Γ : Ctx) (m : XmlMeta) (ci : ClassInfo) (v : XmlVar)
       | none => false)) &&
   fieldAgrees ci v
 
+/-- the number of vars `next_value` rolls together when it meets a var of sequence group `sq` at
+the head of `rest`: up to the last var of that group (vars in between are rolled along) -/
+def sliceLen (rest : List XmlVar) (sq : Nat) : Nat :=
+  (((List.range rest.length).filter (fun i => (rest[i]?.bind (·.sequence)) = some sq)).getLast?.getD 0) + 1
+
+/-- no token-list var and no wrapped var is rolled with a `sequence` group (the roll hands the
+items over one by one: `convert_tokens` then raises `TypeError`, and an empty wrapped list loses
+its wrapper element) -/
+def seqOK : Nat → List XmlVar → Bool
+  | 0, _ => true
+  | _, [] => true
+  | f + 1, v :: tl =>
+    match v.sequence with
+    | none => seqOK f tl
+    | some sq =>
+      ((v :: tl).take (sliceLen (v :: tl) sq)).all (fun w => !w.tokens && w.wrapperQName.isNone) &&
+      seqOK f ((v :: tl).drop (sliceLen (v :: tl) sq))
+
 /-- one exported `XmlMeta` of class `ci` -/
 def metaOK (ft : Feat) (Γ : Ctx) (ci : ClassInfo) (m : XmlMeta) : Bool :=
   decide (m.clazz = ci.id) && (!m.nillable || ft.nillable) && !m.qname.isEmpty &&
@@ -94,6 +115,7 @@ def metaOK (ft : Feat) (Γ : Ctx) (ci : ClassInfo) (m : XmlMeta) : Bool :=
    | some tv => decide (m.elementVars = [tv]) && textVarOK ft ci tv) &&
   decide ((m.elementVars.map (·.index)).Nodup) &&
   decide ((m.elementVars.map (·.qname)).Nodup) &&
+  seqOK (m.elementVars.length + 1) m.elementVars &&
   decide (((m.attributeVars ++ m.elementVars).map (·.name)).Nodup) &&
   decide ((ci.fields.map (·.name)).Nodup) &&
   ci.fields.all (fun f => (m.attributeVars ++ m.elementVars).any (·.name = f.name))
@@ -196,11 +218,11 @@ def textHasData : Val → Bool
   | .list (_ :: _) => true
   | _ => false
 
-/-- the field value produces at least one child element -/
+/-- the field value produces at least one child element (an empty wrapper element is not counted) -/
 def emitsChild (var : XmlVar) (x : Val) : Bool :=
   match x with
   | .none => var.nillable
-  | .list xs => var.wrapperQName.isSome || !xs.isEmpty || (var.tokens && var.nillable)
+  | .list xs => !xs.isEmpty || (var.tokens && var.nillable)
   | _ => true
 
 /-- `v` is an instance of class `c` (metadata built under `pns`) inside the fragment; `nl` says
